@@ -126,7 +126,7 @@ SEEDTABLE
 
 Sixty-one faults were missed on the first run by the check of their own property (bold above; 13 of the 26 of round 5, 15 of the 40 of round 6): in fifty-seven cases the generator did not reach the specific
 trigger (in C17-f and C20-g: the harness never used the same input object twice; in C10-g: it never looked at an operand again after the operation), in one (C18-h) the sampled double preemptions missed the two precise points and the harness's cooperative lock ignored `blocking=False`, in one (C09-i) the harness itself ran the library under `np.errstate(all="ignore")`, in one (C05-c) the faulty reader crashed the node process and the check called that an infrastructure error, and in one (C18-c) the check stopped observing when the
-concurrent reads had returned, so a cache left inconsistent was never read again. The checks were strengthened (last column) and all 198 are now detected by the check of their own property (REGRESSION_SEEDS); full regressions at other seeds showed two faults detected only by
+concurrent reads had returned, so a cache left inconsistent was never read again. The checks were strengthened (last column) and all 198 are now detected by the check of their own property (`tools/reseed_parallel.py` on all 198 with `VERIF_SEED` 0 and 7 after the last change to the harness; the first 158 also with 3 and 5 at earlier stages); full regressions at other seeds showed two faults detected only by
 luck of the draw — C14-c at seed 3 (C14 now starts with a systematic sweep of frame count × index of the first / last observation) and C03-c at seed 5 (C03 now sweeps every frame boundary in
 milliseconds, one below and one above, at 29.97, 12.5, 25 and 1.5 fps). Three more (C09-f, C19-e, C08-e) stopped being detected at seed 0 when round 5 extended a shared generator (the random streams shifted); each got planned cases that run on every seed. Round 5 also exposed one more genuine defect of the unchanged tree (F17).
 What the misses had in common (none was an oracle that accepted a wrong answer; every one was an input the harness never produced): (1) **values and shapes** the
